@@ -232,6 +232,14 @@ def _tol(ty, d, p):
     return _base(ty) + 64.0 * _eps(ty) * (d['tr'] + pn * math.sqrt(max(d['tr'], 0.0))) / lmax_gap
 
 
+def _rtol(ty, d, p):
+    """tolerance on 1/reliability = l0 / min(l1, ..): eigenvalue perturbation over the second eigenvalue"""
+    pn = math.sqrt(sum(c * c for c in p))
+    if not (d['l1'] > 0):
+        return float('inf')
+    return 10 * _base(ty) + 64.0 * _eps(ty) * (d['tr'] + pn * math.sqrt(max(d['tr'], 0.0))) / d['l1']
+
+
 def _in_scope(ty, d):
     """inside the property's quantifier and with an unambiguous neighbourhood"""
     return d['gap'] > 1e-6 and d['knngap'] > (1e-5 if ty[2] == 'f' else 1e-9)
@@ -270,7 +278,7 @@ def compare(case, li, op, impl, model):
         ctol = _base(ty) + 64.0 * _eps(ty) * (1.0 + math.sqrt(sum(c * c for c in p)) / math.sqrt(max(x['tr'], 1e-300)))
         if 'curv' in x and not abs(x['curv'] - y['curv']) <= ctol:
             return False
-        if 'rel' in x and not abs(_inv(x['rel']) - _inv(y['rel'])) <= 10 * ctol:
+        if 'rel' in x and not abs(_inv(x['rel']) - _inv(y['rel'])) <= _rtol(ty, x, p):
             return False
     return True
 
@@ -326,7 +334,7 @@ def oracle(case, out, stats):
             ctol = base + 64.0 * _eps(ty) * (1.0 + pn / math.sqrt(max(d['tr'], 1e-300)))
             if 'curv' in d and not abs(d['curv'] - d['rcurv']) <= ctol:
                 bad('curvature-value', 'point %d: curvature %r, reference l0/trace %r' % (i, d['curv'], d['rcurv']))
-            if 'rel' in d and not abs(_inv(d['rel']) - d['rrelinv']) <= 10 * ctol:
+            if 'rel' in d and not abs(_inv(d['rel']) - d['rrelinv']) <= _rtol(ty, d, p):
                 bad('reliability-value', 'point %d: reliability %r, reference inverse %r' % (i, d['rel'], d['rrelinv']))
             if meta.get('shape') == 'planar':
                 # stored coordinates are rounded: allow for the actual distance of the stored points from the plane
@@ -345,8 +353,8 @@ def oracle(case, out, stats):
                     bad('planar-exact', 'point %d: curvature %r on a planar cloud' % (i, d['curv']))
                 stats['planar_points'] = stats.get('planar_points', 0) + 1
     # rotational equivariance: line j > 0 is line 0 rotated by meta['rots'][j-1]
-    if parsed and parsed[0] is not None:
-        ty = meta['ty']
+    if parsed and parsed[0] is not None and meta.get('rots'):
+        ty = case['lines'][0].split()[1]
         dim = _dim(ty)
         base_recs, base_pts = parsed[0]
         for j, R in enumerate(meta.get('rots', [])):
